@@ -31,6 +31,12 @@ VTrue = Val.VBool(z3.BoolVal(True))
 VFalse = Val.VBool(z3.BoolVal(False))
 
 
+def tkey(t):
+    """Dictionary key of a term: its simplified SMT-LIB text (the C printer: linear in the DAG and exact - the
+    Python pretty printer expands shared subterms and abbreviates deep ones)."""
+    return z3.simplify(t).sexpr()
+
+
 def VInt(x):
     return Val.VInt(z3.IntVal(x) if isinstance(x, int) else x)
 
